@@ -96,6 +96,30 @@ theorem C13_last_wins_history (H : List Nat → η) (kind : Kind) (maxOpN : Nat)
   exact ((C13_last_wins_run H ops (Frag.empty kind maxOpN) (fun _ => none) (wf_empty H kind maxOpN) hk hall
     (fun c _ => by simp [Spec.mview, rowsWithCol, Frag.empty])) c hc).symm
 
+/-- A restart — close + reopen of the fragment, its field, the holder or the whole server, at any
+position of a history (`Op.reopen` is an ordinary member of the histories of
+`C13_at_most_one_history` / `C13_last_wins_history`) — keeps the field's kind (hence its mutex
+vector), the stored bits, every column's value and the invariant. -/
+theorem C13_reopen (H : List Nat → η) (s : Frag η) (hw : WF H s) (hk : s.kind ≠ .set) :
+    (step H s .reopen).1.kind = s.kind ∧ (step H s .reopen).1.bits = s.bits ∧
+    WF H (step H s .reopen).1 ∧ AtMostOne (step H s .reopen).1.bits ∧
+    ∀ c, Spec.mview (step H s .reopen).1.bits c = Spec.mview s.bits c :=
+  ⟨rfl, rfl, wf_step hw .reopen (Or.inr ⟨hk, rfl, trivial⟩), hw.amo hk, fun _ => rfl⟩
+
+/-- The first write after a restart still replaces the column's value: a Set on a column that
+holds another row leaves exactly the new row. -/
+theorem C13_set_after_reopen (H : List Nat → η) (s : Frag η) (r c : Nat) (hw : WF H s)
+    (hk : s.kind ≠ .set) (hr : s.kind = .bool → r ≤ 1) (hc : c < SW) :
+    Spec.mview (step H (step H s .reopen).1 (.setBit r c)).1.bits c = some r ∧
+    AtMostOne (step H (step H s .reopen).1 (.setBit r c)).1.bits := by
+  have h0 := C13_reopen H s hw hk
+  have hk' : (step H s .reopen).1.kind ≠ .set := by rw [h0.1]; exact hk
+  have hop : OpOK (step H s .reopen).1.kind (.setBit r c) :=
+    Or.inr ⟨hk', rfl, by rw [h0.1]; exact hr⟩
+  refine ⟨?_, (C13_at_most_one H _ _ h0.2.2.1 hk' hop).1⟩
+  rw [(C13_last_wins H _ _ h0.2.2.1 hk' hop).1 c hc]
+  simp [Spec.mstep, Spec.mset, Nat.mod_eq_of_lt hc]
+
 /-! Non-vacuity and the scenario of the original defect (column 7 holds row 2, batch
 [(1,7),(2,7)]): the model — like the repaired code — ends with row 2. -/
 
@@ -111,5 +135,9 @@ example : WF (id : List Nat → List Nat) exState :=
 example : Spec.mview (step id exState (.bulkImport false [(1, 7), (2, 7)])).1.bits 7 = some 2 := by decide
 
 example : lastRowOf [(1, 7), (2, 7)] 7 = some 2 := by decide
+
+/-- restart between two writes of the same column (the scenario of a lost mutex vector). -/
+example : Spec.mview (run id (Frag.empty .mutex 10000) [.setBit 2 7, .reopen, .setBit 1 7]).bits 7 = some 1 ∧
+    (run (id : List Nat → List Nat) (Frag.empty .mutex 10000) [.setBit 2 7, .reopen, .setBit 1 7]).bits = [pos 1 7] := by decide
 
 end PV.C13
